@@ -3,7 +3,7 @@
 #  (a) unchanged tree: demo passes; (b) with patch: demo fails; (c) with patch: full test-suite still passes (104)
 # on success copies patch.diff/demo.py/notes.md to /verif/seeded/<id>/ (meta.json is written by hand afterwards)
 set -u
-id=$1; src=${2:-/tmp/seed_out/$id}
+id=$1; src=${2:-/tmp/seed_out/$id}; dest=${3:-$id}
 wt=/tmp/vs_$id
 git -C /repo worktree remove --force $wt 2>/dev/null
 git -C /repo worktree add -q --detach $wt HEAD || exit 2
@@ -16,7 +16,7 @@ t=$(tail -1 /tmp/vs_$id.tests.log)
 cd /; git -C /repo worktree remove --force $wt
 echo "$id: demo clean exit=$a patched exit=$b tests: $t"
 if [ $a -eq 0 ] && [ $b -ne 0 ] && echo "$t" | grep -q "104 passed"; then
-  mkdir -p /verif/seeded/$id && cp $src/patch.diff $src/demo.py /verif/seeded/$id/ && cp $src/notes.md /verif/seeded/$id/notes.md 2>/dev/null
+  mkdir -p /verif/seeded/$dest && cp $src/patch.diff $src/demo.py /verif/seeded/$dest/ && cp $src/notes.md /verif/seeded/$dest/notes.md 2>/dev/null
   echo "$id: CONFIRMED"
 else
   echo "$id: NOT CONFIRMED"
